@@ -521,8 +521,9 @@ def run_check(prop: str, tier: str, replay: str | None, module) -> int:
         "samples": ctx.samples[:8],
         "obligations": len(lean.theorems),
         "discharged": len(lean.discharged),
-        "checker_cmd": f"cd {LEAN_DIR} && lake build IrisVerif.Props.{prop} && lake env lean <generated #print axioms file>"
-                       + (f" && lake env leanchecker IrisVerif.Props.{prop}" if tier == "thorough" else ""),
+        "checker_cmd": f"cd {LEAN_DIR} && lake build " + " ".join(f"IrisVerif.Props.{x}" for x in [prop] + lean.extra_props)
+                       + " && lake env lean <generated file with `#print axioms` for every theorem of those modules>"
+                       + ((" && lake env leanchecker " + " ".join(f"IrisVerif.Props.{x}" for x in [prop] + lean.extra_props)) if tier == "thorough" else ""),
         "trusted_base": TRUSTED_BASE,
         "theorems": lean.theorems,
         "axioms_seen": sorted(lean.axioms_seen),
